@@ -859,3 +859,124 @@ func ruleALIAS2(c *Ctx) []Ob {
 	}
 	return o.list
 }
+
+// ---------------------------------------------------------------- ALIAS3
+
+// ALIAS3: a copy of a document shares nothing with the original. The copy helper
+// (util.CopyMap and what it calls) puts a value of the original into the copy as it is
+// only where the value was found to be neither an object nor an array: both container
+// kinds are copied recursively. A copy that clones objects but shares arrays lets a
+// MatchFunc predicate (which works on Document.Copy()) sort or rewrite an array of the
+// document the operation goes on to return, update, or take index values from.
+func ruleALIAS3(c *Ctx) []Ob {
+	o := newObs(c, "ALIAS3")
+	cp := c.lookupFunc("util", "CopyMap")
+	if cp == nil {
+		o.add(UNDECIDED, "model", "-", "util.CopyMap not found")
+		return softenUndecided(o.list)
+	}
+	empty := types.NewInterfaceType(nil, nil)
+	kinds := []struct {
+		name string
+		t    types.Type
+	}{{"object", types.NewMap(types.Typ[types.String], empty)}, {"array", types.NewSlice(empty)}}
+	n := 0
+	var fns []*ssa.Function
+	for f := range c.staticReach(cp) {
+		if c.pkgRel(f) == "util" {
+			fns = append(fns, f)
+		}
+	}
+	sort.Slice(fns, func(i, j int) bool { return c.fname(fns[i]) < c.fname(fns[j]) })
+	// values that are raw pieces of the input: elements of a ranged map / slice, or an interface
+	// parameter of a helper (the value to copy)
+	for _, fn := range fns {
+		isRaw := func(v ssa.Value) bool {
+			for _, og := range origins(v) {
+				switch x := og.(type) {
+				case *ssa.Extract:
+					if _, isNext := x.Tuple.(*ssa.Next); isNext && x.Index == 2 {
+						return true
+					}
+				case *ssa.UnOp:
+					if ia, ok := x.X.(*ssa.IndexAddr); ok && x.Op == token.MUL {
+						if _, isP := ia.X.(*ssa.Parameter); isP {
+							return true
+						}
+						for _, o2 := range origins(ia.X) {
+							if _, isP := o2.(*ssa.Parameter); isP {
+								return true
+							}
+							if ex, ok := o2.(*ssa.Extract); ok {
+								if _, isTA := ex.Tuple.(*ssa.TypeAssert); isTA {
+									return true
+								}
+							}
+						}
+					}
+				case *ssa.Parameter:
+					if _, isI := x.Type().Underlying().(*types.Interface); isI {
+						return true
+					}
+				}
+			}
+			return false
+		}
+		notKind := map[string][]edge{}
+		for _, kd := range kinds {
+			kd := kd
+			notKind[kd.name] = guardEdges(fn, func(cond ssa.Value, branch bool) bool {
+				ex, ok := cond.(*ssa.Extract)
+				if !ok || ex.Index != 1 {
+					return false
+				}
+				ta, ok := ex.Tuple.(*ssa.TypeAssert)
+				return ok && ta.CommaOk && types.Identical(ta.AssertedType, kd.t) && !branch
+			})
+		}
+		k := 0
+		report := func(at ssa.Instruction, b *ssa.BasicBlock) {
+			n++
+			k++
+			key := fmt.Sprintf("%s/value handed to the copy as it is #%d", c.fname(fn), k)
+			missing := ""
+			for _, kd := range kinds {
+				if !guardedBy(fn, b, notKind[kd.name]) {
+					missing = kd.name
+				}
+			}
+			if missing == "" {
+				o.add(OK, key, relPath(c, at.Pos()), "only where the value is neither an object nor an array")
+			} else {
+				o.add(VIOLATED, key, relPath(c, at.Pos()), "a value of the original goes into the copy without having been found not to be an %s: the copy shares its %ss with the original, so a MatchFunc predicate working on Document.Copy() that sorts or rewrites an %s changes the document the operation returns, stores (Update) or takes the index values to remove from (Delete leaves the entry of the stored value behind)", missing, missing, missing)
+			}
+		}
+		for _, b := range fn.Blocks {
+			for _, in := range b.Instrs {
+				switch x := in.(type) {
+				case *ssa.MapUpdate:
+					if isRaw(x.Value) {
+						report(x, b)
+					}
+				case *ssa.Store:
+					if _, isIA := x.Addr.(*ssa.IndexAddr); isIA && isRaw(x.Val) {
+						report(x, b)
+					}
+				case *ssa.Return:
+					if fn != cp {
+						for _, r := range x.Results {
+							if _, isI := r.Type().Underlying().(*types.Interface); isI && isRaw(r) {
+								report(x, b)
+							}
+						}
+					}
+				}
+			}
+		}
+	}
+	if n == 0 {
+		o.add(UNDECIDED, "copy helper", relPath(c, cp.Pos()), "no place where util.CopyMap hands a value of the original to the copy was recognised")
+		return softenUndecided(o.list)
+	}
+	return o.list
+}
